@@ -11,6 +11,7 @@ Outputs: one entry per merge ("ok" / "!Err") and per read (dict of read-outs).
 """
 from fractions import Fraction
 import math
+import sys
 import numpy as np
 
 KINDS = {
@@ -116,29 +117,76 @@ def read_impl(kind, acc):
     return out
 
 
+def _feed(regs, r, operand, k):
+    """both public spellings, alternating: `acc.accumulate(x)` (which returns the accumulator, so calls can be chained) and `acc += x`
+    (which must leave the name bound to the same accumulator). Returns a complaint or None."""
+    acc = regs[r]
+    if k % 2:
+        ret = acc.accumulate(operand)
+        if ret is not acc:
+            return 'accumulate-returns-%s' % type(ret).__name__
+    else:
+        x = acc
+        x += operand
+        if x is not acc:
+            regs[r] = acc
+            return 'iadd-rebinds-to-%s' % type(x).__name__
+    return None
+
+
 def run_impl(program, on_push=None):
     """execute on the real classes; returns (outputs, regs)"""
     A = accmod()
     regs, kinds, outs = {}, {}, []
+    reuse, bufs = False, {}
+    nspell = 0
     for op in program:
         t = op[0]
-        if t == 'new':
+        if t == 'mode':
+            reuse = op[1] == 'reuse'
+        elif t == 'trip':
+            regs[op[1]] = roundtrip(regs[op[1]], op[2])
+        elif t == 'push' and reuse and isinstance(to_obj(op[2]), np.ndarray) and to_obj(op[2]).ndim >= 1:
+            # the producer refills ONE preallocated buffer per shape/dtype and hands the same object over every time
+            obj = to_obj(op[2])
+            key = (obj.shape, obj.dtype.str)
+            if key in bufs:
+                bufs[key][...] = obj
+            else:
+                bufs[key] = obj
+            nspell += 1
+            try:
+                bad = _feed(regs, op[1], bufs[key], nspell)
+            except Exception as e:  # noqa
+                outs.append('!push:' + type(e).__name__)
+                break
+            if bad:
+                outs.append('!push:' + bad)
+                break
+            if on_push:
+                on_push(op, bufs[key])
+        elif t == 'new':
             _, r, kind, *params = op
             regs[r] = getattr(A, KINDS[kind])(*params)
             kinds[r] = kind
         elif t == 'push':
             obj = to_obj(op[2])
+            nspell += 1
             try:
-                regs[op[1]].accumulate(obj)
+                bad = _feed(regs, op[1], obj, nspell)
             except Exception as e:  # noqa
                 outs.append('!push:' + type(e).__name__)
+                break
+            if bad:
+                outs.append('!push:' + bad)
                 break
             if on_push:
                 on_push(op, obj)
         elif t == 'merge':
+            nspell += 1
             try:
-                regs[op[1]].accumulate(regs[op[2]])
-                outs.append('ok')
+                bad = _feed(regs, op[1], regs[op[2]], nspell)
+                outs.append('!' + bad if bad else 'ok')
             except Exception as e:  # noqa
                 outs.append('!' + type(e).__name__)
         elif t == 'lifetime':
@@ -148,6 +196,48 @@ def run_impl(program, on_push=None):
         else:
             raise ValueError(op)
     return outs, regs
+
+
+def roundtrip(acc, kind):
+    """the accumulator after a trip through a serialiser (shipped between processes, checkpointed, copied)"""
+    import copy
+    import pickle
+    if kind == 'pickle':
+        return pickle.loads(pickle.dumps(acc))
+    if kind == 'dill':
+        import dill
+        return dill.loads(dill.dumps(acc))
+    if kind == 'deepcopy':
+        return copy.deepcopy(acc)
+    if kind == 'copy':
+        # a shallow copy that carries on ALONE (the original is dropped here): must behave like the original would have
+        return copy.copy(acc)
+    raise ValueError(kind)
+
+
+def gen_history_ops(rng, program, p_reuse=0.25, p_trip=0.25):
+    """things the caller may do that are no part of the statistics: reuse one buffer for all array observations, send an
+    accumulator through a serialiser between two operations. Returns a JSON-able description for apply_history_ops."""
+    meta = {}
+    if rng.random() < p_reuse:
+        meta['reuse_buffer'] = True
+    if rng.random() < p_trip:
+        pushes = [i for i, op in enumerate(program) if op[0] in ('push', 'merge') and i > 1]
+        if pushes:
+            meta['trips'] = sorted([rng.choice(pushes), rng.choice(['pickle', 'dill', 'deepcopy', 'copy'])] for _ in range(rng.choice([1, 1, 2])))
+    return meta
+
+
+def apply_history_ops(program, meta):
+    if not meta:
+        return program
+    prog = list(program)
+    for i, kind in sorted(meta.get('trips') or [], reverse=True):
+        if i < len(prog) and prog[i][0] in ('push', 'merge'):
+            prog.insert(i, ['trip', prog[i][1], kind])
+    if meta.get('reuse_buffer'):
+        prog.insert(0, ['mode', 'reuse'])
+    return prog
 
 
 # ---------------------------------------------------------------------------
@@ -194,10 +284,23 @@ def parse_model(outlines):
 # comparison: float read-out vs exact rational, with tolerance
 # ---------------------------------------------------------------------------
 
+FLOAT_MAX = Fraction(sys.float_info.max)
+
+
 def close_num(f, q, scale, rtol=1e-9):
+    if abs(q) > FLOAT_MAX:
+        return True          # the exact value is no binary64 number (e.g. the sum of huge observations): nothing is claimed about it
     if math.isnan(f) or math.isinf(f):
         return False
     return abs(Fraction(f) - q) <= Fraction(rtol) * max(Fraction(1), abs(q), scale)
+
+
+def show(q):
+    """a Fraction for a message"""
+    try:
+        return float(q)
+    except OverflowError:
+        return str(q)[:30] + '...'
 
 
 def close_val(impl, model, scale, rtol=1e-9, check_scalar=True):
